@@ -24,7 +24,7 @@ ENC = {
     "aroring": ["c", "c", "n", "o", "1", "2", "-1", "-2", ":1", "=1", "(", ")", "[nH]", "s"],
     "hcaps": ["[NH4]", "[CH5]", "[OH3]", "[BH4]", "C", "N", "=O", ".", "(", ")", "[NH4+]", "[CH3]", "[SiH3]", "[OH2]"],
     "bad": ["C", "C", "1", "=1", "#1", "(", ")", "%", "[", "]", "=", ".", ":", "*", "c", "X", "[Xx]", "%1"],
-    "bad2": ["C", "Cl", "[Fe]", "c", "1", ":1", "=1", "-1", "/1", "(", ")", ":C", ":Cl", "%12", ":%12", "[Na]", "2", ":2"],
+    "bad2": ["C", "Cl", "[Fe]", "1", ":1", "c", "(", ")", ":C", "=1", ":%12", "%12"],
 }
 
 
@@ -453,7 +453,7 @@ def check_C09(tier):
                     yield "encoder took %.1fs on %d characters" % (dt, len(s))
 
     for alpha in ("bad", "bad2", "ring", "aro2", "bracket"):
-        results, vectors = de.run_decoder_tlc("tot_" + alpha, ENC[alpha], "default", n, emit=True, emit_name="EncEmit",
+        results, vectors = de.run_decoder_tlc("tot_" + alpha, ENC[alpha], "default", n + 1 if alpha == "bad2" else n, emit=True, emit_name="EncEmit",
                                               spec="EncSpec", extends="EncodeCall", invariants=["TwoOutcomes"], fastjit=quick)
         rep.states += sum(r.distinct for r in results)
         rep.transitions += sum(r.generated for r in results)
@@ -481,7 +481,7 @@ def check_C09(tier):
     # many atom orders of cage systems: nested odd-cycle contractions must terminate and must not crash
     cage_sp = []
     for s_ in FULLERENES + ["c12cc3c4c5c1c5c1c2c(c1)c43", "c1c2ccc3c4c5c(c3)cccc5c3c(c1ccc3)c24"]:
-        cage_sp += gs.respell(s_, rng, 400 if quick else 4000)
+        cage_sp += gs.respell(s_, rng, 1500 if quick else 8000)
     old_budget = de.CALL_BUDGET
     de.CALL_BUDGET = 20.0
     try:
